@@ -1,7 +1,7 @@
 """C04 — an interrupted keyed write/removal is all-or-nothing (structural clauses a–c)."""
 from .common import *
 from .c08 import publication_origin, insert_calls
-from ..symval import walk
+from ..symval import walk, teq
 
 PROP = "C04"
 
@@ -23,7 +23,7 @@ def record_template(w, body, op):
     return None, t
 
 
-def check_config(cfg, w, rep):
+def check_config(cfg, w, rep, strict_single=False):
     prog = w.prog
     R = w.roles
     is_async = not cfg.startswith("sync")
@@ -51,39 +51,42 @@ def check_config(cfg, w, rep):
                 short(lf.path), gates[0].what))
     rep.floor("commits", len(R.commits), (2 if is_async else 1) * (2 if "link_to" in cfg else 1), cfg)
 
-    # ---- (b) one record = one write of "\n" + HASH_ENTRY(json) + "\t" + json ----
+    # ---- (b) one record = "\n" + HASH_ENTRY(json) + "\t" + json, emitted by all-or-error writes on the append handle ----
+    # (crash atomicity needs the leading newline, the checksum and writes that cannot silently stop half-way; that the
+    #  record goes out as ONE write call is a concurrency requirement and is demanded by C07 through strict_single)
     for p in R.index_inserts:
         lf = prog.fns[p]
         key = fn_key(lf)
-        effs = w.own_effects(lf)
-        writes = [e for e in effs if e.kind == "WriteData" and e.flags.get("op") not in ("flush",)
-                  and e.classes.get("handle", ("?",))[0] == "Handle" and e.classes["handle"][1][0] == "Bucket"]
-        other_writes = [e for e in effs if e.kind in ("WriteData", "WriteFile") and e not in writes
-                        and e.flags.get("op") != "flush"]
-        if len(writes) != 1 or other_writes:
+        em = record_emission(w, lf)
+        writes = em["writes"]
+        loc0 = writes[0].loc() if writes else lf.body.loc()
+        if not writes or em["others"]:
             rep.violation("b-onewrite:%s" % key,
-                          "index insert `%s` emits a record with %d data write call(s) on the bucket (+%d other) instead of exactly one" % (
-                              short(lf.path), len(writes), len(other_writes)), loc=lf.body.loc(), config=cfg, rule="b-single-append")
+                          "index insert `%s` emits a record with %d data write call(s) on the bucket (+%d elsewhere)" % (
+                              short(lf.path), len(writes), len(em["others"])), loc=lf.body.loc(), config=cfg, rule="b-single-append")
             continue
-        e = writes[0]
-        # not inside a loop
-        cf = prog.cfg(e.body)
-        if any(e.blk in bl for _, bl in cf.loops()):
-            rep.violation("b-loop:%s" % key, "index insert `%s` writes the record inside a loop" % short(lf.path),
-                          loc=e.loc(), config=cfg, rule="b-single-append")
-        if e.flags.get("op") not in ("write_all",):
-            rep.violation("b-partial:%s" % key, "index insert `%s` uses `%s`, which may write only part of the record" % (
-                short(lf.path), e.flags.get("op")), loc=e.loc(), config=cfg, rule="b-single-append")
-        fmt, whole = record_template(w, e.body, e.term.args[1])
+        for e in writes:
+            if e.flags.get("op") not in ALL_OR_ERROR_WRITES:
+                rep.violation("b-partial:%s" % key, "index insert `%s` uses `%s`, which may write only part of the record and still report success" % (
+                    short(lf.path), e.flags.get("op")), loc=e.loc(), config=cfg, rule="b-single-append")
+        for pr in em["problems"]:
+            rep.violation("b-loop:%s" % key, "index insert `%s`: %s" % (short(lf.path), pr), loc=loc0, config=cfg, rule="b-single-append")
+        if strict_single:
+            if len(writes) != 1 or writes[0].flags.get("op") != "write_all":
+                rep.violation("b-strict:%s" % key,
+                              "index insert `%s` emits the record with %s instead of one write_all of one buffer: the record can reach the "
+                              "O_APPEND descriptor in several system calls, so a concurrent appender can land inside it" % (
+                                  short(lf.path), " + ".join(e.flags.get("op", "?") for e in writes)), loc=loc0, config=cfg, rule="b-one-write-call")
+            else:
+                rep.ob(cfg, "b-one-write-call", key, "`%s` hands the whole record to one write_all" % short(lf.path))
         ok = False
-        why = "the written buffer is not a single format! template"
-        if fmt is not None:
-            pieces = fmt[1]
-            shape = [(p_[0], p_[1] if p_[0] == "lit" else None) for p_ in pieces]
+        why = "what is written is not understood as a record template"
+        pieces = em["pieces"]
+        if pieces is not None:
             if len(pieces) == 4 and pieces[0] == ("lit", "\n") and pieces[1][0] == "arg" and pieces[2] == ("lit", "\t") \
                     and pieces[3][0] == "arg":
                 h, j = pieces[1][2], pieces[3][2]
-                if h[0] == "call" and h[1] in R.hash_fns and R.hash_fns[h[1]] == "sha256" and len(h[2]) == 1 and h[2][0] == j:
+                if h[0] == "call" and h[1] in R.hash_fns and R.hash_fns[h[1]] == "sha256" and len(h[2]) == 1 and teq(h[2][0], j):
                     if pieces[1][1] == "new_display" and pieces[3][1] == "new_display" and pieces[1][3] == 0xC0 and pieces[3][3] == 0xC0:
                         ok = True
                     else:
@@ -93,9 +96,10 @@ def check_config(cfg, w, rep):
             else:
                 why = "template is %r, expected \"\\n{}\\t{}\"" % ("".join(x[1] if x[0] == "lit" else "{}" for x in pieces),)
         if ok:
-            rep.ob(cfg, "b-record-template", key, "`%s` writes one buffer \"\\n{HASH_ENTRY(json)}\\t{json}\" with one write_all on the append handle" % short(lf.path))
+            rep.ob(cfg, "b-record-template", key, "`%s` appends \"\\n{HASH_ENTRY(json)}\\t{json}\" with %s on the append handle" % (
+                short(lf.path), "+".join(e.flags.get("op", "?") for e in writes)))
         else:
-            rep.violation("b-template:%s" % key, "index insert `%s`: %s" % (short(lf.path), why), loc=e.loc(), config=cfg,
+            rep.violation("b-template:%s" % key, "index insert `%s`: %s" % (short(lf.path), why), loc=loc0, config=cfg,
                           rule="b-record-template")
     rep.floor("index_inserts", len(R.index_inserts), 2 if is_async else 1, cfg)
 
